@@ -20,6 +20,7 @@ const pkgPGHandler = "pkg/podgrouper/podgroup"
 const pkgGrouperPlugins = "pkg/podgrouper/podgrouper/plugins"
 
 func runC18(c *Ctx) {
+	runC18OwnerIdentity(c)
 	p, fx := c.P, c.Fx
 	apply := c.Anchor("O1", pkgPGHandler, "Handler", "ApplyToCluster")
 	ignore := c.Anchor("O2", pkgPGHandler, "Handler", "ignoreFields")
@@ -281,4 +282,37 @@ func derivesFromCallTo(v ssa.Value, fn *ssa.Function) bool {
 		}
 	}
 	return false
+}
+
+// runC18OwnerIdentity (O6): an owner named in an ownerReference is accepted only if the object found under that
+// name has the referenced UID. A pod whose owner was deleted and re-created under the same name must not be
+// grouped into the new object's PodGroup (its group would change although neither it nor its owner chain did).
+func runC18OwnerIdentity(c *Ctx) {
+	fx := c.Fx
+	fn := c.Anchor("O6", "pkg/podgrouper/podgrouper", "podGrouper", "getOwnerInstance")
+	if fn == nil {
+		return
+	}
+	paths := fx.retPaths(fn, 1, WantNil)
+	n := 0
+	for i, rp := range paths {
+		if strings.Contains(rp.Desc, "const:nil") || true {
+			n++
+		}
+		_, same := hasFact(rp.Facts, func(f Fact) bool {
+			t := f.T
+			if t.Op != "bin" || len(t.Args) != 2 {
+				return false
+			}
+			a, b := t.Args[0].String(), t.Args[1].String()
+			uidCmp := (strings.HasSuffix(a, ".UID") && strings.Contains(b, "GetUID")) || (strings.HasSuffix(b, ".UID") && strings.Contains(a, "GetUID"))
+			if !uidCmp {
+				return false
+			}
+			return (t.Name == "==" && f.Pol) || (t.Name == "!=" && !f.Pol)
+		})
+		c.Check(same, "O6", "RET", fmt.Sprintf("%s success path#%d: the object found has the referenced UID", funcKey(fn), i), rp.Pos, "ownerRef.UID == owner.GetUID()",
+			"an owner is resolved by name only: after the owner was deleted and re-created under the same name, a leftover pod of the old object is grouped into the new object's PodGroup")
+	}
+	c.Floor("O6", "RET owner resolutions", n, 1)
 }
